@@ -1,4 +1,5 @@
 import Sif.Proofs.C15Run
+set_option linter.unusedSimpArgs false
 /-
   C15 — Liquidity removal requires a matured, unexpired, unconsumed unlock request.
   Property theorems only (helper lemmas: Sif/Proofs/C15.lean, C15Run.lean).
